@@ -50,7 +50,26 @@ pub fn check(t: &Trace<'_>, out: &mut CaseOut) -> bool {
         let pings: Vec<&crate::refcodec::CRec> = c.out.packets.iter().filter(|p| matches!(p.pkt, CPacket::PingReq)).collect();
         // (event index, time) of every PINGRESP the client consumed; order is decided by event
         // index because several things can happen at one virtual instant
-        let resps: Vec<(usize, u64)> = c.in_pkts.iter().filter(|p| matches!(p.pkt, Some(SPacket::PingResp))).filter_map(|p| Some((p.ev_consumed?, p.t_consumed?))).collect();
+        // A PINGRESP counts as received when it reached the transport while the application was
+        // waiting in poll()/recv() (an executor may poll the woken task late: `LateWake`);
+        // otherwise - nobody was waiting - when the client read it.
+        // (the arrival counts when the very call that was waiting at that moment went on to read
+        // it, or gave the connection up without reading it)
+        let woke_the_waiter = |p: &crate::world::InPkt| {
+            t.op_at(p.ev_enq).is_some_and(|o| {
+                let op = &t.log.ops[o];
+                matches!(op.kind, "poll" | "recv" | "pollreply") && (p.ev_consumed.is_some_and(|e| e <= op.ev_ret) || (p.ev_consumed.is_none() && op.outcome == Outcome::Err(ErrRepr::Disconnected)))
+            })
+        };
+        let resps: Vec<(usize, u64)> = c
+            .in_pkts
+            .iter()
+            .filter(|p| matches!(p.pkt, Some(SPacket::PingResp)))
+            .filter_map(|p| if woke_the_waiter(p) { Some((p.ev_enq, p.t_enq)) } else { Some((p.ev_consumed?, p.t_consumed?)) })
+            .collect();
+        if w.events[ci.ev_begin..ci.ev_end.min(w.events.len())].iter().any(|e| matches!(e, Ev::LateWake { .. })) {
+            out.count("connections_with_late_wakeups", 1);
+        }
         out.count("pingreq_seen", pings.len() as u64);
         if !pings.is_empty() {
             nontrivial = true;
@@ -70,7 +89,8 @@ pub fn check(t: &Trace<'_>, out: &mut CaseOut) -> bool {
             let mut prev = cop.t_ret;
             // a transport that is busy for a while delays the completion of a packet the client
             // started in time: gaps that contain such a pause are not judged
-            let busy: Vec<(u64, u64)> = w.events.iter().filter_map(|e| match e { Ev::SlowWrite { conn, from, to } if *conn == ci.idx => Some((*from, *to)), _ => None }).collect();
+            // (likewise a sluggish executor that polls the woken task late)
+            let busy: Vec<(u64, u64)> = w.events.iter().filter_map(|e| match e { Ev::SlowWrite { conn, from, to } | Ev::LateWake { conn, from, to } if *conn == ci.idx => Some((*from, *to)), _ => None }).collect();
             let mut judge = |from: u64, to: u64, what: &str, out: &mut CaseOut| {
                 if busy.iter().any(|(a, b)| *a < to && *b > from) {
                     out.count("gaps_spanning_a_busy_transport", 1);
@@ -126,6 +146,8 @@ pub fn check(t: &Trace<'_>, out: &mut CaseOut) -> bool {
                     // (a client stuck in a busy transport cannot report anything until the write returns)
                     Some(_) | None if !continuous && !disc.iter().any(|o| o.t_ret >= tp && o.t_ret < tp + RTT) => {}
                     Some(d) if d.t_ret > tp + RTT && busy_all.iter().any(|(a, b)| *a <= tp + RTT && *b >= d.t_ret) => out.count("timeouts_reported_when_the_transport_became_free", 1),
+                    // (a task that the executor polled late cannot report earlier than that)
+                    Some(d) if d.t_ret > tp + RTT && w.events.iter().any(|e| matches!(e, Ev::LateWake { conn, from, to } if *conn == ci.idx && *from <= tp + RTT && *to >= d.t_ret)) => out.count("timeouts_reported_by_a_late_polled_task", 1),
                     Some(d) if d.t_ret > tp + RTT => out.violations.push(viol("C10", "C10/timeout-late", format!("conn {}: PINGREQ flushed at {}, Disconnected reported at {} ({} us after the bound) although the application was waiting all the time", ci.idx, tp, d.t_ret, d.t_ret - tp - RTT))),
                     Some(_) => out.count("timeouts_at_exactly_the_bound", 1),
                     None => {
